@@ -479,6 +479,7 @@ func cmdCheck(args []string) {
 	seedS := fl.String("seed", envOr("VERIF_SEED", "1"), "seed")
 	runs := fl.Int("runs", 0, "override the number of runs")
 	procs := fl.Int("procs", runtime.NumCPU(), "worker processes")
+	onlyProfile := fl.String("profile", "", "explore one profile only (experiments; the registered commands use all)")
 	budget := fl.Int("budget", 0, "override the wall budget (s)")
 	if len(args) < 1 {
 		trouble("usage: hapsim check <PROP>")
@@ -580,6 +581,9 @@ func cmdCheck(args []string) {
 					"HAPSIM_SEEDS": fmt.Sprintf("%d:%d", base+uint64(j.first), j.n)}
 				if j.first == 0 {
 					env["HAPSIM_SAMPLE"] = "1"
+				}
+				if *onlyProfile != "" {
+					env["HAPSIM_PROFILE"] = *onlyProfile
 				}
 				res, diag, err := runSim(binDir, env, time.Duration(20*j.n+60)*time.Second)
 				mu.Lock()
